@@ -21,6 +21,10 @@ proof against a reference map needs:
            path `param != null && data.is<T>()` (same T) and otherwise returns the default untouched;
            setParam stores into the parameter found-or-added under that name; removeParam erases only the found
            iterator; resetAllParamQueryStatus writes query = false on every element of the sequence.
+Calls to helpers are followed (members of the analysed classes, free / file-local functions; a [[noreturn]] helper
+that throws ends the path with that throw); a helper whose own summary is a linear search - cursor from first to
+last, end test before element test, returns at the first element whose key equals the argument, else last, no other
+effect - is treated as the std::find_if it implements, whatever its name.  findParam keeps its own specification.
 Not decided: step-by-step agreement with a reference map on arbitrary histories.
 """
 import re
@@ -59,6 +63,23 @@ ALGO_REORDER = {'std::partition', 'std::sort', 'std::stable_sort', 'std::reverse
                 'std::swap_ranges', 'std::random_shuffle', 'std::shuffle', 'std::nth_element', 'std::partial_sort',
                 'std::make_heap', 'std::push_heap', 'std::pop_heap', 'std::sort_heap', 'std::next_permutation',
                 'std::prev_permutation', 'std::unique', 'std::inplace_merge'}
+
+
+def follow_c10(f):
+    """helper calls whose paths are spliced into the caller's summary: every member of FlatMap / ParameterizedObject /
+    Param and every free or file-local function of rkcommon - except findParam, which has its own specification
+    (R-C10-5) and is kept as a named call in its callers"""
+    q = strip_targs(f['q'])
+    if q == PO + '::findParam':
+        return False
+    rec = f.get('rec')
+    if rec:
+        return rec in (FM, PO, PARAM)
+    return q.startswith('rkcommon::')
+
+
+def mk_se(tu):
+    return SymExec(tu, own=lambda f: f['q'].startswith('rkcommon::'), inline_stmt=follow_c10, recognise_search=True)
 
 
 def short(q):
@@ -402,7 +423,7 @@ def check_flatmap(ctx, tu, tag=''):
                      'returns the found value or appends (key, VALUE()); contains = lookup != end; erase removes exactly the matching keys; '
                      'at_index/size/empty/clear/reserve forward to the sequence')
     ctx.describe(R4, 'const / non-const siblings and begin/cbegin-style accessors have identical path summaries')
-    se = SymExec(tu, own=lambda f: f['q'].startswith('rkcommon::'))
+    se = mk_se(tu)
     recs = [r for r in tu.records.values() if r.get('tmpl') == FM and not r.get('lambda')]
     counts = dict(insert=0, insert_ok=0, fn=0, fn_ok=0)
     n3 = n4 = 0
@@ -669,7 +690,7 @@ def check_paramobj(ctx, tu, tag=''):
                      'yields null and adds only a parameter of that name; hasParam/getParam use the non-inserting form; getParam sets query and '
                      'calls get<T>() exactly under param != null && is<T>(), else returns the default untouched; setParam stores into the '
                      'found-or-added parameter; removeParam erases only the found iterator; resetAllParamQueryStatus clears every element')
-    se = SymExec(tu, own=lambda f: f['q'].startswith('rkcommon::'))
+    se = mk_se(tu)
     rec = [r for r in tu.records.values() if r['q'] == PO]
     prec = [r for r in tu.records.values() if r['q'] == PARAM]
     if not rec or not prec:
@@ -884,7 +905,7 @@ def check_paramobj(ctx, tu, tag=''):
                     h = base_name(ev.how or '')
                     if h == ANY + '::operator=' and ev.place is not None:
                         assigns.append((ev.place, unver(ev.value[0]) if ev.value else None))
-                    elif h == PARAM + '::set' and ev.place is not None:
+                    elif h == PARAM + '::set' and ev.place is not None and not ev.inlined:
                         callee = tu.callee_fn(ev.node)
                         if callee is None or tu.cfg(callee) is None:
                             und.append(('set', 'Param::set has no analysable body'))
